@@ -325,3 +325,19 @@ Example C19_nonvacuous_noncanonical_keys :
   expected_values ex_req_e (bs "user-agent") = [bs "ua1"].
 Proof. exact ex_req_e_facts. Qed.
 Print Assumptions C19_nonvacuous_noncanonical_keys.
+
+(** Receive-side glue (decodeTrailers: frame-length gate, payload read, QPACK, parseTrailers):
+    accepted only if the frame fits maxHeaderBytes, nothing was cut, the payload is not empty and the
+    section is a well-formed trailer section within the same limit; and every trailer section a
+    writer emits passes it. *)
+Theorem C19_decode_trailers_sound : forall maxb enclen tr fs m,
+  0 <= maxb -> decode_trailers maxb enclen tr fs = inr m ->
+  enclen <= maxb /\ tr = false /\ fs <> [] /\ WFtrailer maxb fs /\ m = trailers_of fs.
+Proof. exact decode_trailers_sound. Qed.
+Print Assumptions C19_decode_trailers_sound.
+
+Theorem C19_writer_decode_agree : forall t fs maxb enclen,
+  write_trailers t = Some fs -> tmap_ok t -> enclen <= maxb -> section_size fs <= maxb ->
+  decode_trailers maxb enclen false fs = inr (trailers_of fs).
+Proof. exact writer_decode_agree. Qed.
+Print Assumptions C19_writer_decode_agree.
